@@ -46,11 +46,43 @@ Fails(ev, s) ==
                \cup Bad(~(ev.op \in Binary) \/ (AsIvs(ev.k_ivs) = Operands[ev.k] /\ ev.k_n = Size(Operands[ev.k])),
                         "C08", "binary operation modified its second operand")
 
+(* unclaimed conformance fact: the documented serialisation [container_type][data].  Type byte, 32-bit
+   little-endian cardinality, then: array container -- members ascending as 16-bit little-endian words, 5 + 2*card
+   bytes in all; bitmap container -- 8192 bytes, member v is bit v % 8 of byte v \div 8; run container -- 32-bit
+   run count, (start, length) pairs of 16-bit words, 9 + 4*runs bytes, at least as many runs as the set has
+   maximal intervals.  Compared on the first 40 bytes and the total length; a disagreement is a NOTE. *)
+LE(bs, at, k) == FoldLeft(LAMBDA acc, i : acc * 256 + bs[at + k - i], 0, [i \in 1..k |-> i])
+RECURSIVE MemberFrom(_, _, _)
+MemberFrom(s, i, left) == IF left <= s[i][2] - s[i][1] THEN s[i][1] + left - 1
+                          ELSE MemberFrom(s, i + 1, left - (s[i][2] - s[i][1]))
+MemberAt(s, r) == MemberFrom(s, 1, r)   \* r-th smallest member (1-based) of an interval set
+LE32Is(b, at, v) == b[at] = v % 256 /\ b[at + 1] = (v \div 256) % 256 /\ b[at + 2] = v \div 65536 /\ b[at + 3] = 0
+SerOk(ev, set) ==
+  LET b == ev.ser  n == ev.ret  t == ev.ser_type  card == Size(set) IN
+  /\ Len(b) >= 5 /\ b[1] = t /\ LE32Is(b, 2, card)
+  /\ CASE t = 0 -> /\ n = 5 + 2 * card
+                   /\ \A r \in 1..card : (5 + 2 * r <= Len(b)) => LE(b, 4 + 2 * r, 2) = MemberAt(set, r)
+       [] t = 1 -> /\ n = 5 + 8192
+                   /\ \A j \in 0..(Len(b) - 6) :
+                        b[6 + j] = FoldLeft(LAMBDA acc, i : acc * 2 + (IF Has(set, 8 * j + 7 - i) THEN 1 ELSE 0), 0,
+                                            [i \in 1..8 |-> i - 1])
+       [] t = 2 -> /\ Len(b) >= 9 /\ b[8] = 0 /\ b[9] = 0 /\ n = 9 + 4 * LE(b, 6, 2) /\ LE(b, 6, 2) >= Len(set)
+                   /\ \A q \in 1..LE(b, 6, 2) : (9 + 4 * q <= Len(b)) =>
+                        LET st == LE(b, 6 + 4 * q, 2)  ln == LE(b, 8 + 4 * q, 2)
+                        IN ln >= 1 /\ Has(set, st) /\ Has(set, st + ln - 1)
+       [] OTHER -> FALSE
+SerNote(ev, set) ==
+  IF ev.e = "Bm" /\ ev.op = "Codec" /\ ev.fault = 0 /\ ev.dead = 0 /\ ev.ret > 0
+  THEN PrintT(<<"NOTE", "ser-checked", 1>>)
+       /\ (IF SerOk(ev, set) THEN TRUE ELSE PrintT(<<"NOTE", "ser-drift-type" \o ToString(ev.ser_type), 1>>))
+  ELSE TRUE
+
 Init == l = 1 /\ S = Empty /\ live = TRUE
 Next ==
   /\ l <= NT
   /\ LET ev == Tr[l] IN
      /\ \A x \in (IF live \/ ev.e = "BmNew" THEN Fails(ev, S) ELSE {}) : PrintT(<<"REJECT", l, x[1], x[2]>>)
+     /\ (IF live /\ ev.e = "Bm" THEN SerNote(ev, S) ELSE TRUE)
      /\ S' = IF ev.e = "BmNew" THEN Empty
              ELSE IF ev.op = "Operand" THEN S
              ELSE Apply(S, [op |-> ev.op, a |-> ev.a, b |-> ev.b, k |-> ev.k]).set
